@@ -101,6 +101,9 @@ func (p *profile) Canonicalize(u *url.Url) (*url.Url, error) {
 		}
 		if u.Hash() != "" {
 			u.SetHash(decodeEncode(strings.TrimPrefix(u.Hash(), "#"), url.HostPercentEncodeSet))
+		} else {
+			// an empty fragment is the same resource as no fragment: do not keep a dangling '#'
+			u.SetHash("")
 		}
 	}
 
